@@ -77,6 +77,15 @@ RULE = ("tie: (vector, max_fidelity_loss, strategy, max_combination_size, use_lo
         "same calls, Statevector of the real definition vs input / plan tensor / budget / true loss / cx counts; non-trivial = "
         "n>=2; distinct = distinct (vector family, n, options)")
 
+UNREACHED_JUSTIFIED = {
+    "qclib/state_preparation/util/baa.py:349->350": "dead: svd_s is cut to 2**ceil(log2(effective rank)) entries, so every low_rank <= len/2 "
+                                                    "< effective rank and low_rank_approximation returns exactly low_rank",
+    "qclib/state_preparation/util/baa.py:Node.__str__": "debug printing, not used by the initializer",
+    "qclib/entanglement.py:_get_iota,generalized_cross_product,meyer_wallach_entanglement,geometric_entanglement": "entanglement measures, not "
+                                                    "used by BAA / LowRankInitialize (C09 covers schmidt_*; the measures are outside C08)",
+    "qclib/entanglement.py:qb_approximation": "unused alternative to randomized_svd",
+}
+
 LOSSES = [0.0, 1e-3, 0.05, 0.1, 0.3, 0.5, 1.0]
 STRATS = ["greedy", "brute_force", "split", "canonical"]
 TOL = 1e-7
@@ -279,15 +288,51 @@ def run_case(c):
     opt = {"max_fidelity_loss": c["l"], "strategy": c["s"], "max_combination_size": c["c"], "use_low_rank": c["u"]}
     res = {"checks": [], "counts": [], "anomalies": [], "op": None, "impl": None}
     rep = {"call": "BaaLowRankInitialize(vector, opt_params=opt).definition", "vector": c["vec"], "opt": opt,
-           "kind": c["kind"], "n": n, "tag": c["tag"], "do_cx": c.get("do_cx", False)}
+           "kind": c["kind"], "n": n, "tag": c["tag"], "do_cx": c.get("do_cx", False), "ref_form": c.get("ref_form", 0)}
+    form = c.get("form", "opt")
+    rep.update({k: c[k] for k in ("form", "iso", "uni", "qubits", "rsvd_seed") if k in c})
+    static_qubits = None
+    host = None
+    if n >= 14:
+        # schmidt_decomposition switches to randomized_svd (module-level unseeded generator): seed it so
+        # that the run is a function of VERIF_SEED (module state only, /repo untouched)
+        import qclib.entanglement as _ent
+        _ent._rng = np.random.default_rng(c.get("rsvd_seed", 0))
     try:
         with Recorder() as R:
-            gate = BaaLowRankInitialize(list(v), opt_params=opt)
+            if form == "none":            # opt_params=None: every option at its default
+                gate = BaaLowRankInitialize(list(v))
+            elif form == "empty":         # opt_params={}: every .get() is None
+                gate = BaaLowRankInitialize(list(v), opt_params={})
+            elif form == "label":
+                gate = BaaLowRankInitialize(list(v), label="psi", opt_params=opt)
+            elif form == "ndarray":       # params as ndarray instead of list
+                gate = BaaLowRankInitialize(v, opt_params=opt)
+            elif form == "schemes":       # iso_scheme / unitary_scheme handed down to LowRankInitialize
+                gate = BaaLowRankInitialize(list(v), opt_params=dict(opt, iso_scheme=c["iso"], unitary_scheme=c["uni"]))
+            elif form == "static":        # static entry point, qubits=None
+                from qiskit import QuantumCircuit
+                host = QuantumCircuit(n)
+                BaaLowRankInitialize.initialize(host, list(v), opt_params=opt)
+                gate = host.data[0].operation
+                static_qubits = list(range(n))
+            elif form == "static-qubits":  # static entry point, explicit (permuted) qubit list on a wider circuit
+                from qiskit import QuantumCircuit
+                host = QuantumCircuit(n + 1)
+                static_qubits = list(c["qubits"])
+                BaaLowRankInitialize.initialize(host, list(v), qubits=static_qubits, opt_params=opt)
+                gate = host.data[0].operation
+            else:
+                gate = BaaLowRankInitialize(list(v), opt_params=opt)
             defn = gate.definition
     except Exception as e:  # qclib raised on a valid input
         res["checks"].append((case_key("raises", c), False, f"{type(e).__name__}: {e}", True, rep))
         return res
     node = gate.node
+    if form != "opt":
+        res["counts"].append("branch:call-form:" + form)
+    if n >= 14:
+        res["counts"].append("branch:schmidt:randomized-svd(n>=14)")
     res["anomalies"] = R.anomalies
     # ---- tie ----
     early = c["s"] != "canonical" and len(R.roots) == 1
@@ -317,6 +362,37 @@ def run_case(c):
     err_plan = float(np.abs(sv - plan).max())
     res["checks"].append((case_key("plan", c), err_plan <= TOL, f"max|Statevector - plan tensor| = {err_plan:.3e}; "
                           f"qubits={node.qubits} ranks={node.ranks} partitions={node.partitions}", True, rep))
+    # Node.state_vector() / Node.num_qubits(): the library's own reading of the plan
+    try:
+        nsv = np.asarray(node.state_vector(), dtype=complex).reshape(-1)
+        err_nsv = float(np.abs(nsv - plan).max()) if nsv.shape == plan.shape else float("inf")
+        okn = err_nsv <= TOL and node.num_qubits() == n
+        res["checks"].append((case_key("node-state-vector", c), okn,
+                              f"max|node.state_vector() - plan tensor| = {err_nsv:.3e}; num_qubits()={node.num_qubits()} "
+                              f"qubits={node.qubits}", True, rep))
+    except Exception as e:
+        if len(node.vectors) == 1 and isinstance(node.vectors[0], list):
+            # unsplit root whose vector is still the caller's Python list: tensorly's kronecker wants ndarrays.  A defect of
+            # the reporting helper only (the initializer never calls Node.state_vector) - counted, reported, not a C08 failure
+            res["counts"].append("out-of-scope:Node.state_vector-raises-on-unsplit-list-root")
+        else:
+            res["checks"].append((case_key("node-state-vector", c), False,
+                                  f"node.state_vector() raised {type(e).__name__}: {e}", True, rep))
+    if host is not None:
+        # the appended instruction sits on the requested wires and the host circuit prepares the state there
+        wires = [host.find_bit(q).index for q in host.data[0].qubits]
+        hv = np.asarray(Statevector(host).data)
+        want = np.zeros(2 ** host.num_qubits, dtype=complex)
+        for x in range(2 ** n):
+            big = 0
+            for k in range(n):
+                if (x >> k) & 1:
+                    big |= 1 << static_qubits[k]
+            want[big] = sv[x]
+        err_h = float(np.abs(hv - want).max())
+        res["checks"].append((case_key("static-wiring", c), wires == static_qubits and err_h <= TOL,
+                              f"initialize(...) appended on wires {wires} (asked {static_qubits}); host state error {err_h:.3e}",
+                              True, rep))
     cover = sorted(q for qs in node.qubits for q in qs)
     res["checks"].append((case_key("cover", c), cover == list(range(n)) and all(list(q) == sorted(q) for q in node.qubits),
                           f"plan qubits {node.qubits}", True, rep))
@@ -339,7 +415,23 @@ def run_case(c):
                               f"true loss {true_loss!r} vs accounted {tl!r}", True, rep))
     if c.get("do_cx"):
         cb = cx_count(defn)
-        cl = cx_count(LowRankInitialize(list(v)).definition)
+        # reference: exact low-rank preparation, built through the different entry forms of lowrank.py
+        ref_form = c.get("ref_form", 0) % 4
+        if ref_form == 0:
+            ref = LowRankInitialize(list(v)).definition
+        elif ref_form == 1:
+            ref = LowRankInitialize(list(v), opt_params={}).definition           # schemes default inside the else-branch
+        elif ref_form == 2:
+            ref = LowRankInitialize(list(v), label="ref", opt_params={"lr": 0}).definition
+        else:
+            from qiskit import QuantumCircuit
+            ref = QuantumCircuit(n)
+            LowRankInitialize.initialize(ref, list(v), qubits=None if (c.get("ref_form", 0) // 4) % 2 == 0 else list(range(n)))
+        res["counts"].append(f"branch:lowrank-ref-form:{ref_form}")
+        err_ref = float(np.abs(np.asarray(Statevector(ref).data) - v).max())
+        res["checks"].append((case_key("lowrank-ref-exact", c), err_ref <= TOL,
+                              f"reference LowRankInitialize (entry form {ref_form}) error {err_ref:.3e}", True, rep))
+        cl = cx_count(ref)
         res["counts"].append("cx:compared")
         res["checks"].append((case_key("cx", c), cb <= cl, f"BAA circuit {cb} cx > LowRankInitialize {cl} cx "
                               f"(plan saved {node.total_saved_cnots})", True, dict(rep, cx_baa=cb, cx_lowrank=cl)))
@@ -487,13 +579,53 @@ def gen_cases(ctx, nmax, per_vec, cx_every, nmin=2, kinds=KINDS, reps=1):
                     c = pr.choice([0, 0, 1, 2, 3]) if n >= 4 else pr.choice([0, 0, 1])
                     count += 1
                     cases.append({"n": n, "kind": kind, "vec": vec, "l": l, "s": s, "u": u, "c": c,
-                                  "tag": f"{rep_i}", "do_cx": (count % cx_every == 0) and n <= 6})
+                                  "tag": f"{rep_i}", "do_cx": (count % cx_every == 0) and n <= 6,
+                                  "ref_form": count // cx_every})
                 # option edge cases: ignored max_fidelity_loss, unknown strategy string
                 if rep_i == 0:
                     cases.append({"n": n, "kind": kind, "vec": vec, "l": pr.choice([-0.25, 1.5]), "s": pr.choice(STRATS),
                                   "u": False, "c": 0, "tag": "badl", "do_cx": False})
                     cases.append({"n": n, "kind": kind, "vec": vec, "l": pr.choice(LOSSES), "s": "single_split",
                                   "u": pr.random() < 0.5, "c": 0, "tag": "unk", "do_cx": False})
+    return cases
+
+
+def gen_entry_cases(ctx):
+    """Call forms and option plumbing of baa_lowrank.py that the (vector, options) grid never takes:
+    opt_params None / {} (all defaults), a label, ndarray params, iso/unitary schemes handed down, the
+    static `initialize` with qubits=None and with an explicit permuted qubit list; and two n=14 states, the
+    smallest size at which schmidt_decomposition('auto', rank=1) switches to randomized_svd (cheap:
+    product-like plans, the whole vector is never prepared as one factor)."""
+    pr = ctx.rng
+    r = ctx.nprng()
+    cases = []
+
+    def vec_of(v):
+        return [[float(z.real), float(z.imag)] for z in np.asarray(v, dtype=complex)]
+
+    def add(n, kind, form, l, s, u, c, **extra):
+        v = make_vector(kind, n, pr, r)
+        cases.append(dict({"n": n, "kind": kind, "vec": vec_of(v), "l": l, "s": s, "u": u, "c": c,
+                           "tag": "form-" + form, "form": form, "do_cx": False}, **extra))
+
+    for n, kind in [(2, "haar"), (3, "groups"), (4, "ghzmix"), (4, "haar")]:
+        add(n, kind, "none", 0.0, "greedy", False, 0)
+        add(n, kind, "empty", 0.0, "greedy", False, 0)
+    for n, kind in [(3, "nearprod"), (4, "groups")]:
+        add(n, kind, "label", pr.choice(LOSSES), pr.choice(STRATS), pr.random() < 0.5, 0)
+        add(n, kind, "ndarray", pr.choice(LOSSES), pr.choice(STRATS), pr.random() < 0.5, 0)
+    for n, kind in [(2, "real"), (3, "ghzmix"), (4, "lowrank"), (5, "groups")]:
+        add(n, kind, "static", pr.choice([0.0, 0.1]), pr.choice(STRATS), pr.random() < 0.5, 0)
+        qs = pr.sample(range(n + 1), n)
+        add(n, kind, "static-qubits", pr.choice([0.0, 0.1]), pr.choice(STRATS), pr.random() < 0.5, 0, qubits=qs)
+    for n, kind, l in [(4, "haar", 0.0), (5, "haar", 0.0), (5, "lowrank", 0.05), (6, "groups", 0.0)]:
+        iso, uni = pr.choice([("knill", "qsd"), ("knill", "csd"), ("ccd", "csd")])
+        add(n, kind, "schemes", l, pr.choice(STRATS), True, 0, iso=iso, uni=uni)
+    # n = 14: randomized SVD inside the canonical pre-run / canonical search
+    add(14, "product", "opt", 0.05, pr.choice(["greedy", "brute_force", "split"]), False, 0, rsvd_seed=pr.randrange(2 ** 31))
+    cases[-1]["tag"] = "n14"
+    add(14, "ghzmix", "opt", 1.0, "canonical", False, 0, rsvd_seed=pr.randrange(2 ** 31))
+    cases[-1]["tag"] = "n14"
     return cases
 
 
@@ -630,12 +762,14 @@ def run(ctx):
         tie_index(ctx, 4)
         cases = gen_cases(ctx, 5, 24, 6)
         cases += gen_cases(ctx, 6, 8, 6, nmin=6)
+        cases += gen_entry_cases(ctx)
     else:
         tie_helpers(ctx, 8)
         tie_local_partition(ctx, 8)
         tie_index(ctx, 5)
         cases = gen_cases(ctx, 6, None, 5, reps=2)
         cases += gen_cases(ctx, 7, 8, 10 ** 9, nmin=7)
+        cases += gen_entry_cases(ctx)
     _execute(ctx, cases)
 
 
@@ -654,4 +788,5 @@ def replay(ctx, payload):
     c = {"n": r["n"], "kind": r.get("kind", "replay"), "vec": r["vector"], "l": opt["max_fidelity_loss"],
          "s": opt["strategy"], "u": opt["use_low_rank"], "c": opt["max_combination_size"], "tag": r.get("tag", "replay"),
          "do_cx": bool(r.get("do_cx", False)) or "cx_baa" in r}
+    c.update({k: r[k] for k in ("form", "iso", "uni", "qubits", "rsvd_seed", "ref_form") if k in r})
     _execute(ctx, [c])
